@@ -96,7 +96,14 @@ func stateInlineAnnotationTextPrefix(s *Scanner, c byte) state {
 	case bytes.IsNewLine(c):
 		s.found(lexeme.InlineAnnotationEnd)
 		s.found(lexeme.NewLine)
-		s.step = s.returnToStep.Pop()
+		// Like an annotation with a note, one that ends behind its rules is not followed by another annotation.
+		fn := s.returnToStep.Pop()
+		s.step = func(s *Scanner, c byte) state {
+			if s.isAnnotationStart(c) {
+				panic(s.newJSchemaErrorAtCharacter("after inline annotation"))
+			}
+			return fn(s, c)
+		}
 
 		s.annotation = annotationNone
 		if s.isInsideMultiLineAnnotation() {
